@@ -5,7 +5,8 @@
    line readers of Spec/Lnotab.v; both are compared with the real dis / co_lines / PyCode_Addr2Line on
    every run.  [view_wf] is a boolean evaluated on every corpus code object by the check. *)
 From PCD Require Import Base.PyBase Base.Cfg Model.Data Model.LineTable Model.Blocks Model.CodeData
-  Spec.Lnotab Spec.Dis Model.ViewSer Proofs.C02_Statements Proofs.DecodeView
+  Spec.Lnotab Spec.Dis Model.ViewSer Proofs.C02_Statements Proofs.DecodeView Proofs.C02deep_Statements
+  Proofs.DecodeViewDeep
   Gen.Cfg37 Gen.Cfg38 Gen.Cfg39 Gen.Cfg310.
 
 (* For every interpreter configuration, every code object and its decoded constants: the decoded
@@ -27,3 +28,12 @@ Example C02_opcode_tables_well_formed :
   cfg_ops_wf Cfg37.cfg = true /\ cfg_ops_wf Cfg38.cfg = true /\
   cfg_ops_wf Cfg39.cfg = true /\ cfg_ops_wf Cfg310.cfg = true.
 Proof. vm_compute. repeat split; reflexivity. Qed.
+
+(* Through all nesting levels: from_code of a code object whose every nested code object (at any depth in
+   the constants) is in the decoder's domain gives data in which EVERY nested CodeData reads as CPython's
+   own reading of the code object it was decoded from, the nested constants being those readings in turn
+   (reads_as, Proofs/C02deep_Statements.v). *)
+Theorem C02_every_nested_code_object_is_read_as_cpython_reads_it : forall c code d,
+  view_wf_deep c (PCode code) = true -> to_code_data c code = OK d -> reads_as c (PCode code) (KCode d).
+Proof. exact C02_deep_top. Qed.
+Print Assumptions C02_every_nested_code_object_is_read_as_cpython_reads_it.
